@@ -19,6 +19,12 @@ from contracts.iteration import payload_heap, payload_inv, height
 from contracts.apply import ready, extends, trivial_z as trivial  # noqa: E402
 
 
+# a payload obtained under a request to persist it (hook transfer(..., materialize_as=<name>), hook materialize(), engine constants,
+# leaf payloads): only such a payload may be cached on a Materialization -- anything else (a lazy result of a plain transfer) would
+# re-evaluate the upstream tree on every use ("computed at most once", C10)
+persistent = z3.Function("persistent_payload", smt.Ref, smt.BoolS)
+
+
 def register(reg):
     reg.load("iteration")
     P = ("C07", "C10")
@@ -31,20 +37,22 @@ def register(reg):
     k.req("hook-source-is-self-contained", lambda c: B(ready(payload_heap(c), c.source.z)))
     k.req("hook-not-invoked-for-trivial-relations", lambda c: B(z3.Not(trivial(c, c.state.env["original"].z)) if "original" in c.state.env else z3.BoolVal(True)))
     k.ens("payload-holds-the-sources-rows", lambda c: B(z3.And(c.result.z != smt.NONE, V.content(c.result.z) == V.rows(c.source.z))))
+    from pyvc.types import OptStr as _OS
+    k.ens("persistent-exactly-when-asked-to-materialize", lambda c: B(persistent(c.result.z) == _OS.is_os_some(c.materialize_as.z)))
     k = reg.contract("_processor:Processor.materialize", virtual=True, assumed=True, properties=P, result_td=TPay,
                      note="user hook: returns a payload holding the target's rows")
     k.req("hook-target-is-self-contained", lambda c: B(ready(payload_heap(c), c.target.z)))
     k.req("hook-not-invoked-for-trivial-relations", lambda c: B(z3.Not(trivial(c, c.state.env["original"].z)) if "original" in c.state.env else z3.BoolVal(True)))
-    k.ens("payload-holds-the-targets-rows", lambda c: B(z3.And(c.result.z != smt.NONE, V.content(c.result.z) == V.rows(c.target.z))))
+    k.ens("payload-holds-the-targets-rows", lambda c: B(z3.And(c.result.z != smt.NONE, V.content(c.result.z) == V.rows(c.target.z), persistent(c.result.z))))
 
     # ---- engine payload factories for trivial relations
     k = reg.contract("_engine:Engine.get_join_identity_payload", virtual=True, assumed=True, properties=P, result_td=TPay,
                      note="engine hook: a payload holding the single empty row (sql/_engine.py:188, iteration/_engine.py:113; the base-class default "
                           "returns None and is outside the property's engines)")
-    k.ens("identity-payload", lambda c: B(z3.And(c.result.z != smt.NONE, V.content(c.result.z) == V.RUNIT)))
+    k.ens("identity-payload", lambda c: B(z3.And(c.result.z != smt.NONE, V.content(c.result.z) == V.RUNIT, persistent(c.result.z))))
     k = reg.contract("_engine:Engine.get_doomed_payload", virtual=True, assumed=True, properties=P, result_td=TPay,
                      note="engine hook: a payload holding no rows over the given columns (sql/_engine.py:194, iteration/_engine.py:117; base default None is out of scope)")
-    k.ens("doomed-payload", lambda c: B(z3.And(c.result.z != smt.NONE, V.content(c.result.z) == V.REMPTY(c.columns.z))))
+    k.ens("doomed-payload", lambda c: B(z3.And(c.result.z != smt.NONE, V.content(c.result.z) == V.REMPTY(c.columns.z), persistent(c.result.z))))
 
     # SQL Select markers re-conform their target (subject of C17): assumed here
     k = reg.contract("sql._select:Select.reapply", assumed=True, properties=P, result_td=TRel, note="sql.Select.reapply: C17")
@@ -71,6 +79,12 @@ def register(reg):
     unalloc_empty = lambda c, H, clk: z3.ForAll([lf], z3.Implies(z3.And(smt.born(lf) >= clk, smt.typ(lf) != cid(c, "LeafRelation")), z3.Select(H, lf) == smt.NONE),  # noqa: E731
                                                 patterns=[z3.Select(H, lf)])
     k.req("leaves-carry-payloads", lambda c: B(leaves_ok(c, payload_heap(c))))
+    mm = z3.Const("mm", smt.Ref)
+    # every payload that does not sit on a transfer is persistent: leaves and materializations by their nature; other markers get
+    # payloads only from users (assumed cacheable) -- the Processor attaches hook results to transfers and materializations only
+    cached_ok = lambda c, H: z3.ForAll([mm], z3.Implies(z3.And(smt.typ(mm) != cid(c, "Transfer"), z3.Select(H, mm) != smt.NONE),  # noqa: E731
+                                                      persistent(z3.Select(H, mm))), patterns=[z3.Select(H, mm)])
+    k.req("cached-payloads-are-persistent", lambda c: B(cached_ok(c, payload_heap(c))))
     k.req("objects-not-yet-allocated-have-no-payload", lambda c: B(unalloc_empty(c, payload_heap(c), c.entry_clock)))
     tr = z3.Const("tr", smt.Ref)
     dest = lambda c: A(c, "Transfer", "destination")  # noqa: E731
@@ -110,6 +124,9 @@ def register(reg):
           hints=lambda c: [B(ready(H1(c), res(c)))])
     k.ens("a-persisted-result-carries-the-payload",
           lambda c: B(z3.Implies(persisted(c), z3.Select(H1(c), res(c)) != smt.NONE)))
+    k.ens("a-result-reported-as-persisted-carries-a-persistent-payload",
+          lambda c: B(z3.Implies(persisted(c), persistent(z3.Select(H1(c), res(c))))))
+    k.ens("only-persistent-payloads-are-cached-outside-transfers", lambda c: B(cached_ok(c, H1(c))))
     k.ens("a-processed-materialization-has-its-payload",
           lambda c: B(z3.Implies(smt.typ(c.original.z) == cid(c, "Materialization"), z3.Select(H1(c), c.original.z) != smt.NONE)))
     k.raises("EngineError", None)
